@@ -256,6 +256,9 @@ def key_class(kind):
     return {"rsa": paramiko.RSAKey, "ec": paramiko.ECDSAKey, "ed": paramiko.Ed25519Key}[kind]
 
 
+route_failures = []
+
+
 def routes_for(kind, label, text, password=None, generated=None, cert_file=None, path=None):
     """All objects for ONE underlying key: [(route, obj)].  ``text`` = private key file text;
     ``generated`` = an object made by ``generate``/``key=`` (route 'generated') if any."""
@@ -279,7 +282,10 @@ def routes_for(kind, label, text, password=None, generated=None, cert_file=None,
     pub = loaded.asbytes()
     out.append(("public-bytes:data", cls(data=pub)))
     out.append(("public-bytes:msg", cls(msg=Message(pub))))
-    out.append(("public-bytes:from_type_string", paramiko.PKey.from_type_string(loaded.get_name(), pub)))
+    try:
+        out.append(("public-bytes:from_type_string", paramiko.PKey.from_type_string(loaded.get_name(), pub)))
+    except Exception as e:  # noqa: BLE001 - reported by the caller as a failed construction route
+        route_failures.append((kind, label, "PKey.from_type_string(%r, <public bytes>)" % loaded.get_name(), e))
     if cert_file is not None:
         c = cls.from_private_key(io.StringIO(text), password=password)
         c.load_certificate(cert_file)
